@@ -65,3 +65,14 @@ def structure_classes(m):
     if len(build.names(m)) == 1:
         out.add("root-only")
     return out
+
+
+# ---- one operation object per process, executed on every case (C19's concern at scale): its result must equal
+# the result of a fresh object - exposes state kept on the object between executions
+_LONG_LIVED = {}
+
+
+def long_lived(cls):
+    if cls.__name__ not in _LONG_LIVED:
+        _LONG_LIVED[cls.__name__] = cls()
+    return _LONG_LIVED[cls.__name__]
